@@ -71,6 +71,20 @@ type Run struct {
 	Extra    map[string]interface{}
 	Assume   []string
 	Rule     string
+
+	// HangDescribe renders input i of the enumeration in progress for a hang report (must not execute it).
+	HangDescribe func(i int64) (what string, c interface{})
+}
+
+// HangLimit is how long one single input may run before the run is aborted with a "hang" violation. Inputs
+// take milliseconds; the limit only exists so that a call that never returns is reported instead of waited for.
+func HangLimit() time.Duration {
+	if s := os.Getenv("VERIF_HANG_S"); s != "" {
+		if n, err := strconv.Atoi(s); err == nil && n > 0 {
+			return time.Duration(n) * time.Second
+		}
+	}
+	return 120 * time.Second
 }
 
 // NewRun reads tier/seed from the environment-independent arguments.
@@ -315,10 +329,49 @@ func (r *Run) ParallelFor(n int64, fn func(i int64)) {
 	const chunk = 256
 	var next atomic.Int64
 	var wg sync.WaitGroup
-	for w := 0; w < Workers(); w++ {
+	nw := Workers()
+	cur := make([]atomic.Int64, nw)   // index in progress per worker, -1 = none
+	since := make([]atomic.Int64, nw) // its start (unix nanoseconds)
+	for w := range cur {
+		cur[w].Store(-1)
+	}
+	stop := make(chan struct{})
+	defer close(stop)
+	describe := r.HangDescribe
+	go func() {
+		limit := HangLimit()
+		tick := time.NewTicker(2 * time.Second)
+		defer tick.Stop()
+		for {
+			select {
+			case <-stop:
+				return
+			case <-tick.C:
+			}
+			for w := range cur {
+				i := cur[w].Load()
+				if i < 0 || time.Since(time.Unix(0, since[w].Load())) < limit {
+					continue
+				}
+				if cur[w].Load() != i {
+					continue
+				}
+				// one input does not return: the goroutine cannot be stopped, so report and end the run here
+				what, c := fmt.Sprintf("input #%d", i), interface{}(map[string]interface{}{"index": i})
+				if describe != nil {
+					what, c = describe(i)
+				}
+				r.Violate(Violation{Sig: "hang", What: fmt.Sprintf("%s: the call does not return (no answer within %s)", what, limit), Case: c})
+				os.Exit(r.Finish(map[string]interface{}{"exhaustive": false, "aborted": "one input did not return"}))
+			}
+		}
+	}()
+	for w := 0; w < nw; w++ {
 		wg.Add(1)
+		w := w
 		go func() {
 			defer wg.Done()
+			defer cur[w].Store(-1)
 			for {
 				lo := next.Add(chunk) - chunk
 				if lo >= n {
@@ -332,8 +385,11 @@ func (r *Run) ParallelFor(n int64, fn func(i int64)) {
 					hi = n
 				}
 				for i := lo; i < hi; i++ {
+					since[w].Store(time.Now().UnixNano())
+					cur[w].Store(i)
 					fn(i)
 				}
+				cur[w].Store(-1)
 			}
 		}()
 	}
